@@ -1428,6 +1428,32 @@ fn gen_case(rng: &mut Rng, n: u64) -> CaseIn {
         reads.push(format!("?{}", rng.range(8, 14)));
         return CaseIn { kind, ssc: 3, phases: vec![Phase { ops, reads }] };
     }
+    if n == 13 || n == 14 {
+        // directed: the same slot state BEHIND the end of the region — delete i, commit, update i and a later slot j,
+        // commit, truncate below i, commit, roll back twice: the tail lives in the overlay only (stored_len above the
+        // on-disk length), slot i is deleted AND overlaid, slot j is overlaid; a dirty fold that loses its place in
+        // the overlay at i reads slot j from the bytes behind the region
+        let kind = ["bytes", "zc"][(n - 13) as usize].to_string();
+        let total = rng.range(9, 30) as usize;
+        let cut = rng.range(2, (total - 5) as u64) as usize;
+        let i = cut + rng.below((total - cut - 2) as u64) as usize;
+        let j = i + 1 + rng.below((total - i - 1) as u64) as usize;
+        let ops: Vec<String> = vec![format!("p:{total}"), "s".into(), format!("d:{i}"), "s".into(), format!("u:{i}"), format!("u:{j}"), "s".into(),
+                                    format!("t:{cut}"), "s".into(), "r".into(), "r".into()];
+        let mut reads = vec!["x:0".to_string()];
+        for m in ["tf", "te", "fr", "fe"] {
+            if m == "tf" || m == "te" {
+                reads.push(format!("d.{m}:0:{total}:{}", total + 5));
+                reads.push(format!("d.{m}:{cut}:{MAXU}:{}", total + 5));
+            } else {
+                reads.push(format!("d.{m}:0:{total}"));
+                reads.push(format!("d.{m}:{cut}:{MAXU}"));
+            }
+        }
+        reads.push(format!("d.c1:{j}"));
+        reads.push(format!("?{}", rng.range(6, 10)));
+        return CaseIn { kind, ssc: 4, phases: vec![Phase { ops, reads }] };
+    }
     let mut kind = rng.pick(&kinds).to_string();
     if let Some((k, _)) = forced { kind = k.to_string(); }
     let raw = matches!(kind.as_str(), "bytes" | "bytesn" | "zc");
